@@ -9,5 +9,6 @@ CONSTANTS
   MaxN = 3
   MaxRedirects = 1
   Combos <- CombosB
+  HistKinds <- KindsQ
 INVARIANT ResultIsClosure
 CHECK_DEADLOCK FALSE
